@@ -60,6 +60,8 @@ def cmd_strategy(liveness=False):
         st.builds(lambda s: {"c": "uidexpunge", "set": s}, sset),
         st.just({"c": "noop"}),
         st.builds(lambda b: {"c": "status", "box": b}, st.integers(0, 1)),
+        # a POP3 session on the inbox: STAT, DELE 1, QUIT (in the model: remember the first message, remove it at QUIT)
+        st.just({"c": "pop3"}),
     ]
     if liveness:
         base += [st.just({"c": "close"}), st.builds(lambda b: {"c": "delete", "box": b}, st.just(1)), st.builds(lambda b: {"c": "rename", "box": b}, st.just(1)),
@@ -287,6 +289,17 @@ def apply_atom(m: M, atom):
             m.boxes[box] = [x for x in lst if x[0] not in victims]
             m.removed_from(box, s)
         return ("OK",)
+    if c == "pop3":
+        key = (s, atom["i"])
+        inbox = m.boxes["inbox"]
+        if k == 0:  # log in: the session's snapshot; message number 1 is the first message now
+            m.ctx[key] = inbox[0][0] if inbox else None
+            return None
+        mid = m.ctx.get(key)
+        if mid is not None and any(x[0] == mid for x in inbox):
+            m.boxes["inbox"] = [x for x in inbox if x[0] != mid]
+            m.removed_from("inbox", None)
+        return ("OK",)
     if c == "noop":
         m.start_flush(s)
         return ("OK",)
@@ -305,6 +318,8 @@ def atoms_of(sessions):
             n = 1
             if cmd["c"] == "copy":
                 n = 3 if cmd["move"] else 2
+            elif cmd["c"] == "pop3":
+                n = 2
             for k in range(n):
                 lst.append({"s": s, "i": i, "k": k, "cmd": cmd, "last": k == n - 1})
         out[s] = lst
@@ -364,6 +379,8 @@ def find_order(base: M, seqs, obs, final, budget=200000):
                     ok = bool(got) and got[0] in ("NO", "BAD")
                 else:
                     ok = outcome_matches(got, exp)
+            elif exp is None:
+                ok = True  # inner step of a multi-step command
             else:
                 ok = outcome_matches(got, exp)
             if not ok:
@@ -484,6 +501,7 @@ def execute(trace) -> CaseResult:
             line = "RENAME mb mb2"
         elif c == "pop3":
             line = None
+            cmd["_line_bytes"] = b"<POP3: STAT, DELE 1, QUIT>"
         else:
             line = "NOOP"
         if line is not None:
